@@ -1,7 +1,10 @@
 /-
-  Proofs/C13.lean — helper lemmas for Props/C13.lean (reply grammar, scope test, ordering).
+  Proofs/C13.lean — helper lemmas for Props/C13.lean (reply grammar, scope test, ordering, and the
+  directory `trash-restore` restores from: `restoreScopeDir`).
 -/
 import TrashVerif.Spec.C13
+import TrashVerif.Model.Cmds
+import TrashVerif.Proofs.C07
 namespace TrashVerif.Proofs.C13
 open TrashVerif Bytes TrashVerif.C13
 
@@ -785,5 +788,121 @@ theorem offered_sorted_path (es : List Entry) :
   List.pairwise_mergeSort (le := fun a c => cpsLe (pathKeyOf a) (pathKeyOf c))
     (fun _ _ _ h1 h2 => cpsLe_trans _ _ _ h1 h2)
     (fun _ _ => cpsLe_total _ _) es
+
+end TrashVerif.Proofs.C13
+
+/-! ### the directory to restore from: `restoreScopeDir cwd path = normpath (join cwd path)`
+
+(The canonical spelling `toStr` of a working directory, `GoodNames`, `body` are those of Proofs/C07.lean.) -/
+
+namespace TrashVerif.Proofs.C13
+open TrashVerif Bytes FS
+open TrashVerif.Proofs.C07 (GoodNames body toStr_nil toStr_ne body_nil body_cons body_append body_single body_last
+  splitOn_name_body joinWith_body normpath_toStr)
+open TrashVerif.Proofs.C01 (normComps_cons)
+
+theorem normComps_good_slash (p : List Bytes) : ∀ acc, GoodNames p → normComps true acc (p ++ [[]]) = acc.reverse ++ p := by
+  induction p with
+  | nil => intro acc _; rw [List.nil_append, normComps_cons, if_pos (Or.inl rfl)]; simp [normComps]
+  | cons c cs ih =>
+    intro acc h
+    obtain ⟨h1, _, h3, h4, _⟩ := h c List.mem_cons_self
+    rw [List.cons_append, normComps_cons, if_neg (by simp [h1, h3]), if_pos h4, ih _ h.tail]
+    simp
+
+/-- `normpath(cwd + "/")` for a working directory other than "/" is its canonical spelling -/
+theorem normpath_toStr_slash (D : CPath) (h0 : D ≠ []) (hn : GoodNames D) : normpath (toStr D ++ [slash]) = toStr D := by
+  obtain ⟨n, rest, rfl⟩ := List.exists_cons_of_ne_nil h0
+  obtain ⟨h1, h2, _⟩ := hn n List.mem_cons_self
+  obtain ⟨a, n', rfl⟩ := List.exists_cons_of_ne_nil h1
+  have ha : a ≠ slash := fun e => h2 (e ▸ List.mem_cons_self)
+  have hbody : body rest ++ [slash] = body (rest ++ [[]]) := by
+    rw [body_append, body_single]
+  have hsp : splitOn slash (slash :: (a :: n' ++ body rest) ++ [slash]) = [] :: (a :: n') :: (rest ++ [[]]) := by
+    have : slash :: (a :: n' ++ body rest) ++ [slash] = slash :: ((a :: n') ++ body (rest ++ [[]])) := by
+      rw [← hbody]; simp
+    rw [this, splitOn, if_pos rfl,
+      splitOn_name_body (rest ++ [[]]) (a :: n') h2 (fun m hm => by
+        rcases List.mem_append.1 hm with hm | hm
+        · exact (hn.tail m hm).2.1
+        · have : m = [] := by simpa using hm
+          rw [this]; exact List.not_mem_nil)]
+  rw [toStr_ne (by simp), body_cons]
+  unfold normpath
+  rw [if_neg (by simp)]
+  have s1 : startsWith (slash :: (a :: n' ++ body rest) ++ [slash]) [slash] = true := by simp [startsWith]
+  have s2 : startsWith (slash :: (a :: n' ++ body rest) ++ [slash]) [slash, slash] = false := by
+    simp [startsWith, List.isPrefixOf, Ne.symm ha]
+  simp only [s1, s2, hsp, if_true, Bool.false_eq_true, false_and, if_false]
+  have hd : decide ((1 : Nat) ≠ 0) = true := by decide
+  have e : (a :: n') :: (rest ++ [[]]) = ((a :: n') :: rest) ++ [[]] := rfl
+  rw [hd, normComps_cons, if_pos (Or.inl rfl), e, normComps_good_slash _ [] hn, List.reverse_nil, List.nil_append,
+    joinWith_body]
+  simp
+
+/-- the canonical spelling of a directory other than "/" is not empty and does not end with '/' -/
+theorem toStr_no_trailing_slash (D : CPath) (h0 : D ≠ []) (hn : GoodNames D) :
+    toStr D ≠ [] ∧ endsWith (toStr D) [slash] = false := by
+  obtain ⟨w, x, hw, hx⟩ := body_last h0 hn
+  rw [toStr_ne h0, hw]
+  refine ⟨by simp, ?_⟩
+  simp [endsWith, List.isSuffixOf, List.isPrefixOf, Ne.symm hx]
+
+/-- `join(cwd, "")`: "/" stays "/", every other working directory gets a trailing '/' -/
+theorem pjoin_toStr_nil (D : CPath) (hn : GoodNames D) :
+    pjoin (toStr D) [] = if D = [] then [slash] else toStr D ++ [slash] := by
+  by_cases h0 : D = []
+  · subst h0; rfl
+  · obtain ⟨hne, hend⟩ := toStr_no_trailing_slash D h0 hn
+    rw [if_neg h0]
+    unfold pjoin
+    rw [if_neg (by simp [startsWith]), if_neg (by simp [hne, hend])]
+    simp
+
+/-- `join(cwd, n/…)` for a plain relative path: the canonical spelling of the concatenation -/
+theorem pjoin_toStr_rel (D : CPath) (n : Name) (rest : CPath) (hn : GoodNames D) (hc : GoodNames (n :: rest)) :
+    pjoin (toStr D) (joinWith [slash] (n :: rest)) = toStr (D ++ n :: rest) := by
+  obtain ⟨h1, h2, _⟩ := hc n List.mem_cons_self
+  obtain ⟨a, n', rfl⟩ := List.exists_cons_of_ne_nil h1
+  have ha : a ≠ slash := fun e => h2 (e ▸ List.mem_cons_self)
+  rw [joinWith_body, toStr_ne (by simp : D ++ (a :: n') :: rest ≠ []), body_append, body_cons]
+  unfold pjoin
+  rw [if_neg (by simp [startsWith, List.isPrefixOf, Ne.symm ha])]
+  by_cases h0 : D = []
+  · subst h0; rw [if_pos (Or.inr (by decide))]; rfl
+  · obtain ⟨hne, hend⟩ := toStr_no_trailing_slash D h0 hn
+    rw [if_neg (by simp [hne, hend]), toStr_ne h0]
+    simp
+
+/-- (a) no directory argument: the scope is the working directory — the root included -/
+theorem scope_dir_default (cwd : CPath) (hn : GoodNames cwd) : restoreScopeDir (toStr cwd) [] = toStr cwd := by
+  unfold restoreScopeDir
+  rw [pjoin_toStr_nil cwd hn]
+  by_cases h0 : cwd = []
+  · subst h0; decide
+  · rw [if_neg h0]; exact normpath_toStr_slash cwd h0 hn
+
+/-- (b) an absolute directory argument: the working directory plays no part -/
+theorem scope_dir_absolute (cwdStr path : Bytes) (h : isAbs path = true) :
+    restoreScopeDir cwdStr path = normpath path := by
+  unfold restoreScopeDir pjoin; unfold isAbs at h; rw [if_pos h]
+
+/-- (c) a plain relative directory argument: the working directory extended by its components -/
+theorem scope_dir_relative (cwd comps : CPath) (hn : GoodNames cwd) (hc : GoodNames comps) :
+    restoreScopeDir (toStr cwd) (joinWith [slash] comps) = toStr (cwd ++ comps) := by
+  cases comps with
+  | nil => rw [List.append_nil]; exact scope_dir_default cwd hn
+  | cons n rest =>
+    unfold restoreScopeDir
+    rw [pjoin_toStr_rel cwd n rest hn hc]
+    exact normpath_toStr _ (fun m hm => by
+      rcases List.mem_append.1 hm with hm | hm
+      · exact hn m hm
+      · exact hc m hm)
+
+/-- (d) from the root, without a directory argument, every location is in scope -/
+theorem scope_root_offers_all (loc : Bytes) : inScope (restoreScopeDir (toStr []) []) loc = true := by
+  rw [scope_dir_default [] (fun _ h => by cases h)]
+  simp [inScope, toStr]
 
 end TrashVerif.Proofs.C13
